@@ -6,6 +6,7 @@ Exit codes: 0 property held on everything explored (KNOWN-FINDING lines allowed)
             2 harness error (never reported as a violation).
 """
 import importlib
+import re
 import json
 import multiprocessing as mp
 import os
@@ -39,7 +40,7 @@ def load_specs(path):
 
 def write_replay(prop_id, v):
     os.makedirs(os.path.join(HERE, "replay"), exist_ok=True)
-    name = "%s-%s.json" % (prop_id, v["bucket"].replace(".", "_").replace("/", "_"))
+    name = "%s-%s.json" % (prop_id, re.sub(r"[^A-Za-z0-9]+", "_", v["bucket"]).strip("_"))
     path = os.path.join(HERE, "replay", name)
     with open(path, "w") as fh:
         json.dump(
